@@ -329,11 +329,12 @@ func yamlName(tag reflect.StructTag, def string) string {
 func init() { register("C13", checkC13) }
 
 func checkC13(c *Ctx, r *Report) {
-	r.Rules = []string{"S-get shape of Config.Get (two merges, override option only, lookup by the requested format)", "D1 content filter table", "V1 override keys validated against the packager registry", "A1 merge-aliasing hazard walk", "documented overridable keys are overridable fields", "S-get the override block is consumed by the merge only", "A-block-as-written override blocks are written only by the environment expansion", "S-get-self fields Config.Get re-allocates are copied from themselves", "block-F15-self override blocks are expanded field by field from themselves (imported from C16)", "V1 no iteration of the override loop skips the registry lookup"}
+	r.Rules = []string{"S-get shape of Config.Get (two merges, override option only, lookup by the requested format)", "D1 content filter table", "V1 override keys validated against the packager registry", "A1 merge-aliasing hazard walk", "documented overridable keys are overridable fields", "S-get the override block is consumed by the merge only", "A-block-as-written override blocks are written only by the environment expansion", "S-get-self fields Config.Get re-allocates are copied from themselves", "block-F15-self override blocks are expanded field by field from themselves (imported from C16)", "V1 no iteration of the override loop skips the registry lookup", "CLI-get-final the command asks Config.Get for the packager it looks up in the registry", "plan-K7-no-dedup (imported from C05)"}
 	r.Explanation = "Shape and table rules over go/ssa and go/types. (S-get) Config.Get performs exactly two mergo.Merge calls: the base Info (by value) into a freshly allocated Info, and the override block obtained by a map lookup whose key is the requested format — nothing else — into that Info's overridable part; both with exactly the option WithOverride (so lists are replaced wholesale and only non-empty values override); the path without an override block returns the base copy. (D1) the content filter in Get is evaluated for every (entry tag, requested format) cell and keeps an entry iff its tag is empty or the requested format. (V1) Config.Validate passes every key of the overrides table to the packager registry lookup and returns its error; the registry lookup fails for an unknown format. (A1) the type tree of Overridables is walked for pointer-kind fields, through which mergo would write into the base configuration, unless Get re-points them to fresh copies before the override merge. The documented '(overridable)' keys are fields of Overridables. mergo's reflective merge itself is trusted."
 	r.Explanation += " The override block is consumed by the merge alone: no field of the looked-up block is read directly in Config.Get or the helpers it hands the fresh Info to."
 	r.Explanation += " (A-block-as-written) every store whose address is rooted at an element of Config.Overrides (a map lookup, a range value, or a parameter bound to one at a call site) lies in the environment-expansion family."
 	r.Explanation += " (S-get-self) in Get and its helpers a store into the handed-out Info whose value derives from configuration fields derives from the same field. (V1, extended) from the loop body's entry no path returns to the loop header without passing the registry lookup."
+	r.Explanation += " (CLI-get-final) in the command the format handed to Config.Get is the SSA value handed to nfpm.Get."
 	r.Assumptions = []string{
 		"mergo v1.0.1 with WithOverride replaces a destination value by a non-empty source value, slices wholesale, nested structs field by field, and re-makes maps",
 	}
@@ -859,6 +860,10 @@ func checkC13(c *Ctx, r *Report) {
 	// D3-override of C02)
 	checkOverrideBlocksUntouched(c, r)
 	checkGetCopiesSelf(c, r)
+	checkCLIGetsFinalPackager(c, r)
+	// a per-entry packager tag is honoured entry by entry: the planner drops
+	// no entry because an earlier one looked the same (rule of C05)
+	importRules(c, r, checkC05, "plan-", []string{"K7-no-dedup"}, nil)
 	// ... and the expansion writes each field of a block back from itself
 	// (rule of C16): a block's ipk list fed from its deb list changes a
 	// setting the block never mentioned
@@ -986,4 +991,46 @@ func checkGetCopiesSelf(c *Ctx, r *Report) {
 		})
 	}
 	r.Floor("S-get-self", n, 1)
+}
+
+// checkCLIGetsFinalPackager (CLI-get-final): the command asks the configuration
+// for the settings of the packager it is going to use. The format handed to
+// Config.Get is the very value handed to the registry lookup - after the
+// packager has been inferred from the target when none was given - otherwise
+// Get("") returns the base settings and the format's override block is
+// ignored.
+func checkCLIGetsFinalPackager(c *Ctx, r *Report) {
+	dp := c.Func("internal/cmd", "doPackage")
+	get := c.Method("", "Config", "Get")
+	reg := c.Func("", "Get")
+	if dp == nil || get == nil || reg == nil {
+		r.Unresolved("internal/cmd.doPackage", "command function, Config.Get or nfpm.Get not found")
+		return
+	}
+	var cfgArg, regArg ssa.Value
+	var at ssa.Instruction
+	for _, fn := range sortedFuncs(c, c.Reach(dp)) {
+		if c.funcPkgPath(fn) != c.funcPkgPath(dp) {
+			continue
+		}
+		forEachInstr(fn, func(in ssa.Instruction) {
+			call, ok := in.(*ssa.Call)
+			if !ok {
+				return
+			}
+			switch call.Call.StaticCallee() {
+			case get:
+				cfgArg = call.Call.Args[len(call.Call.Args)-1]
+				at = in
+			case reg:
+				regArg = call.Call.Args[0]
+			}
+		})
+	}
+	if cfgArg == nil || regArg == nil {
+		r.Unresolved("internal/cmd.doPackage", "the calls of Config.Get and nfpm.Get were not both found on the command's call graph")
+		return
+	}
+	r.Check(cfgArg == regArg || sameValue(cfgArg, regArg), "CLI-get-final", "the command asks Config.Get for the packager it looks up in the registry", c.instrPos(at),
+		fmt.Sprintf("Config.Get is handed %s, the registry lookup %s: when the packager is inferred from the target the settings are taken for another (empty) format and its override block is ignored", shorten(valueExpr(c, cfgArg, 0), 60), shorten(valueExpr(c, regArg, 0), 60)))
 }
